@@ -66,7 +66,17 @@ def r2(ctx):
     s_ok = bool(sleeps) and all(hl.expand_text(c.args[0], n) == "self._config.interval" for n, c in sleeps if c.args) and all(c.args for _, c in sleeps)
     ctx.check(s_ok, R, "_heartbeat_loop:period", m, (sleeps[0][1] if sleeps else hl.node), "each iteration sleeps self._config.interval", ", ".join(norm_text(c) for _, c in sleeps) or "no sleep")
     in_loop = loops and all(any(x is c for x in ast.walk(loops[0])) for _, c in sleeps + sends)
-    awaited = all(n.awaits for n, _ in sleeps + sends)
+    def _reaches_await(n):
+        # awaited where it is created, or held in a local that an awaited expression of the loop (e.g. gather(a, b)) consumes
+        if n.awaits:
+            return True
+        if isinstance(n.ast, ast.Assign) and len(n.ast.targets) == 1 and isinstance(n.ast.targets[0], ast.Name) and loops:
+            v = n.ast.targets[0].id
+            uses = [x for x in hl.cfg.nodes if x.awaits and x.ast is not None and any(y is x.ast for y in ast.walk(loops[0])) and any(isinstance(z, ast.Name) and z.id == v and isinstance(z.ctx, ast.Load) for z in ast.walk(x.ast))]
+            return any(hl.cfg.dominates(n.id, u.id) for u in uses)
+        return False
+
+    awaited = all(_reaches_await(n) for n, _ in sleeps + sends)
     ctx.check(bool(sends) and in_loop and awaited, R, "_heartbeat_loop:sends-every-iteration", m, hl.node, "each iteration awaits the sleep and _send_heartbeat_message()", "send or sleep missing from the loop body / not awaited")
     sh = fn_of(ctx, HEARTBEAT, "HeartbeatManager._send_heartbeat_message")
     snd = sh.calls("self._socket.send")
